@@ -30,7 +30,9 @@ type reqSpec struct {
 }
 
 func (rs reqSpec) build() *http.Request {
-	r := newReq(rs.Method, rs.H)
+	// (a copy: the library echoes by sub-slicing the request's own header slices, so what a writer or handler appends to a response
+	// header can land in the request's header map - which must not be the specification of the NEXT request too)
+	r := newReq(rs.Method, cloneHeader(rs.H))
 	switch rs.Shape {
 	case 1:
 		r.Body, r.ContentLength = io.NopCloser(strings.NewReader("x")), 1
